@@ -428,7 +428,10 @@ func TestC15(t *testing.T) {
 		ID: "C15", Level: "exploration",
 		Rule: "a case is one document history of a drawn kind (lists | notes | toc | mixed): lists = 1-10 (thorough 1-20) calls of AddListItem/AddBulletList/AddNumberedList/CreateMultiLevelList/AddListItem(nil) over every ListType, every BulletType, levels -1..10, starts 0..9 (every fourth item repeats the type/symbol/level of an earlier one with a new start); notes = AddFootnote/AddEndnote/AddFootnoteToRun/RemoveFootnote/RemoveEndnote with live, already-removed and unknown ids and XML-expressible texts; toc = headings (levels 1-9, texts incl. empty/blank), paragraphs, tables, an optional foreign paragraph-style TOC, GenerateTOC/AutoGenerateTOC (MaxLevel 1-9 or nil config), UpdateTOC x1-3, ListHeadings/GetHeadingCount; every kind with reopen (ToBytes->OpenFromMemory, half of them with the process-wide registries reset = another process). Registries are reset before each case. non-trivial = lists: >=3 items of >=2 type/level/start combinations; notes: >=2 adds and >=1 successful removal; toc: >=3 headings of >=2 levels, one deeper than MaxLevel, and an update/regeneration after a heading was added to a document that already had a TOC. distinct = distinct sequence of (op kind, list type+level | id kind | heading level | MaxLevel | repetitions | fresh)",
 		Gen:  genCase, Run: run, Findings: findings, Fixed: fixedCases,
-		MustSee: map[string]float64{},
+		MustSee: map[string]float64{"kind:lists": 0.15, "kind:notes": 0.12, "kind:toc": 0.15, "kind:mixed": 0.03, "reopen": 0.2, "reopen:fresh-process": 0.08,
+			"list:level-outside-0-8": 0.07, "list:same-definition-key-other-start": 0.05, "list:start-judged": 0.15, "rm:live": 0.05, "rm:unknown": 0.08, "rm:removed": 0.004,
+			"toc:update-after-change": 0.04, "toc:heading-at-max-level": 0.05, "toc:heading-empty-text": 0.06, "toc:max-level-not-3": 0.12, "toc:update-repeated": 0.05,
+			"toc:auto-with-existing-toc": 0.05, "toc:paragraph-style": 0.008, "nontrivial:lists": 0.12, "nontrivial:notes": 0.05, "nontrivial:toc": 0.04},
 		Assumptions: []string{
 			"numbering, notes and TOC are read from word/numbering.xml, word/footnotes.xml, word/endnotes.xml and the w:sdt[docPartGallery='Table of Contents'] / TOCn-styled paragraphs of word/document.xml by the harness's own readers",
 			"AddNumberedList and AddBulletList name no start number: w:start is not judged for their items; StartNumber is judged for AddListItem/CreateMultiLevelList items of ordered types only (the field is documented as 'ordered lists only')",
